@@ -11,7 +11,8 @@ EXPLANATION = (
     "reads/writes go through the two property gates, which are called with exactly (object, name[, value]) so that no request "
     "data reaches their other parameters; no other dynamic getattr/setattr); each gate's success exits are dominated "
     "by the private-name refusal and the _pyroExposed test, without dotted traversal; the advertised-members routine applies the "
-    "same predicates and the same mark-carrier order and caches per class object; the reserved dunder table contains the 43 reference names and "
+    "same predicates and the same mark-carrier order, caches per class object and publishes the entry only after filling it; proxies copy "
+    "the member sets they are given; the method gate does not run a property getter before refusing; the reserved dunder table contains the 43 reference names and "
     "is_private_attribute returns False only for public or non-reserved dunder names; expose marks only own, non-private "
     "members. Not decided: getattr/descriptor behaviour for arbitrary class shapes, unicode look-alikes, non-string names."
 )
